@@ -11,13 +11,20 @@
     poll — takes the list, wakes as many as there are free slots, locks again and puts the rest
     back: modelled with all its scheduling points). The poller's [io_uring_enter] can
     be interrupted by a signal at any time (event [PI]: at the call, or while blocked).
+    Every poll is called with [None] or with a finite timeout ([tm]: any list of choices); a wait
+    with a finite timeout ends with ETIME (event [Timeout]) when the scheduler reports that nobody
+    is left who could wake it, and that counts as a lost wake-up when one is owed: the poll slept
+    its whole timeout through it. On a single-issuer ring the wakers never enter the kernel (the
+    synchronous IORING_REGISTER_SEND_MSG_RING): the kernel would refuse them.
     Property theorems only; model in Model/Wake.v, proofs in Proofs/WakeProofs.v. *)
 From A10 Require Import Base.Word Base.Run Gen.Consts Model.Wake Proofs.WakeProofs.
 
 (** On every schedule the scheduler / kernel can produce (a blocked poller is resumed only when
     something arrived or a signal interrupts it; a signal can interrupt the poller's enter
     anywhere; "stuck" is reported only when the poller is blocked, both queues are empty and
-    every waker has finished) the poller is never stuck while a wake-up is owed. *)
+    every waker has finished; the timeout of a wait with a finite timeout expires under the same
+    conditions) the poller is never stuck while a wake-up is owed, and no poll with a finite
+    timeout sleeps its whole timeout while a wake-up is owed. *)
 Theorem C11_no_lost_ring_wakeup : no_lost_ring_wakeup.
 Proof. exact no_lost_ring_wakeup_holds. Qed.
 
@@ -31,6 +38,15 @@ Proof. exact wake_is_on_its_way_holds. Qed.
     reports it, and that poll enters with a zero timeout. *)
 Theorem C11_awoken_bit_makes_next_poll_prompt : awoken_bit_makes_next_poll_prompt.
 Proof. exact awoken_bit_makes_next_poll_prompt_holds. Qed.
+
+(** The same, read off the two scheduler reports: whenever the blocked poller could be reported
+    stuck, or its finite timeout could expire, nothing is owed. *)
+Theorem C11_expired_timeout_means_nothing_owed : expired_timeout_means_nothing_owed.
+Proof. exact expired_timeout_means_nothing_owed_holds. Qed.
+
+(** An awoken poll enters with a zero timeout whatever timeout the caller passed: it does not wait. *)
+Theorem C11_awoken_poll_does_not_wait : awoken_poll_does_not_wait.
+Proof. exact awoken_poll_does_not_wait_holds. Qed.
 
 (** On every schedule whatsoever: a published, unconsumed wake message ([sqo] counts the pending
     entries, at the front, that are not wake messages) has a submitter (the kernel thread, or a
@@ -70,19 +86,33 @@ Proof. exact eintr_retry_loses_wakeup_refuted. Qed.
 Theorem C11_has_waiting_bit_loses_wakeup_refuted : has_waiting_bit_loses_wakeup.
 Proof. exact has_waiting_bit_loses_wakeup_refuted. Qed.
 
+(** NOT the code as it is (seeded change C11-j): a [Completions::poll] that keeps the caller's
+    [Some(t)] when [set_polling(true)] reported "awoken" ([timeout.or(awoken.then_some(ZERO))])
+    sleeps its whole timeout through the wake-up made before the poll started. On the same events
+    the code as it is returns. *)
+Theorem C11_kept_timeout_loses_wakeup_refuted : kept_timeout_loses_wakeup.
+Proof. exact kept_timeout_loses_wakeup_refuted. Qed.
+
+(** NOT the code as it is (seeded change C11-i): wakers that take the ordinary path (add + enter)
+    on a single-issuer ring: the kernel refuses their enter (EEXIST), the message is published
+    and never submitted, the blocked poll sleeps through the wake-up. On the same events the code
+    as it is has posted the message synchronously. *)
+Theorem C11_refused_enter_loses_wakeup_refuted : refused_enter_loses_wakeup.
+Proof. exact refused_enter_loses_wakeup_refuted. Qed.
+
 (** Documentation, not a violation: under the stricter reading "a wake targets a poll that is
     inside the kernel, else the next to start" this schedule ends with the second poll blocked
     for ever after waker 1's call; under the API-level reading nothing is owed (the poll in
     progress at waker 1's call returned after it). *)
 Theorem C11_strict_target_reading_refuted :
   exists es,
-    valid (init Default 8 0 0 2 [1%nat; 1%nat]) es
-    /\ (let s := fst (run step (init Default 8 0 0 2 [1%nat; 1%nat]) (firstn 16 es)) in
+    valid (init Default 8 0 0 2 [] [1%nat; 1%nat]) es
+    /\ (let s := fst (run step (init Default 8 0 0 2 [] [1%nat; 1%nat]) (firstn 16 es)) in
         nth_error es 16 = Some (W 1)
         /\ pp s = PWbH /\ polls s = 2%nat /\ pstate s = N.lor IS_POLLING IS_AWOKEN
         /\ nth_error (wakers s) 1 = Some {| wp := WIdle; calls := 1; wok := false |}
         /\ nth_error (wakers (wstep s 1)) 1 = Some {| wp := WIdle; calls := 0; wok := false |})
-    /\ (let s := fst (run step (init Default 8 0 0 2 [1%nat; 1%nat]) es) in
+    /\ (let s := fst (run step (init Default 8 0 0 2 [] [1%nat; 1%nat]) es) in
         pp s = PInKernel /\ polls s = 1%nat /\ cq s = 0 /\ sqh s = sqt s
         /\ all_wakers_finished s /\ ev_ok s Stuck
         /\ owed s = false /\ lost s = false
@@ -96,25 +126,25 @@ Check C11_pending_message_has_a_submitter : pending_message_has_a_submitter.
 Check C11_owed_poller_is_resumable_or_a_waker_is_running :
   owed_poller_is_resumable_or_a_waker_is_running.
 Check (C11_no_lost_ring_wakeup :
-  forall m c prefill nparked npolls wcalls es, valid (init m c prefill nparked npolls wcalls) es ->
-    lost (fst (run step (init m c prefill nparked npolls wcalls) es)) = false).
+  forall m c prefill nparked npolls tm wcalls es, valid (init m c prefill nparked npolls tm wcalls) es ->
+    lost (fst (run step (init m c prefill nparked npolls tm wcalls) es)) = false).
 Check (C11_wake_is_on_its_way :
-  forall m c prefill nparked npolls wcalls es, valid (init m c prefill nparked npolls wcalls) es ->
-    let s := fst (run step (init m c prefill nparked npolls wcalls) es) in
+  forall m c prefill nparked npolls tm wcalls es, valid (init m c prefill nparked npolls tm wcalls) es ->
+    let s := fst (run step (init m c prefill nparked npolls tm wcalls) es) in
     pp s = PInKernel -> owed s = true ->
       0 < cq s \/ sqh s < sqt s \/ exists i w, nth_error (wakers s) i = Some w /\ wp w <> WIdle).
 Check (C11_awoken_bit_makes_next_poll_prompt :
   forall s, pp s = PSetPolling -> N.testbit (pstate s) 1 = true ->
     let s' := pstep s in aw s' = true /\ pstate s' = IS_POLLING).
 Check (C11_pending_message_has_a_submitter :
-  forall m c prefill nparked npolls wcalls es,
-    let s := fst (run step (init m c prefill nparked npolls wcalls) es) in
+  forall m c prefill nparked npolls tm wcalls es,
+    let s := fst (run step (init m c prefill nparked npolls tm wcalls) es) in
     sqh s + sqo s < sqt s ->
       md s = KernelThread
       \/ exists i w, nth_error (wakers s) i = Some w /\ (wp w = WEnterH \/ wp w = WEnterT)).
 Check (C11_owed_poller_is_resumable_or_a_waker_is_running :
-  forall m c prefill nparked npolls wcalls es, valid (init m c prefill nparked npolls wcalls) es ->
-    let s := fst (run step (init m c prefill nparked npolls wcalls) es) in
+  forall m c prefill nparked npolls tm wcalls es, valid (init m c prefill nparked npolls tm wcalls) es ->
+    let s := fst (run step (init m c prefill nparked npolls tm wcalls) es) in
     pp s = PInKernel -> owed s = true ->
       0 < cq s \/ (md s = KernelThread /\ sqh s + sqo s < sqt s)
       \/ exists i w, nth_error (wakers s) i = Some w /\ wp w <> WIdle).
@@ -134,11 +164,11 @@ Check (C11_poll_return_clears_owed :
   forall s e, polls (fst (step s e)) <> polls s -> owed (fst (step s e)) = false).
 Check (C11_eintr_retry_loses_wakeup_refuted :
   exists es,
-    valid_loop (init Default 8 0 0 1 [1%nat]) es
+    valid_loop (init Default 8 0 0 1 [] [1%nat]) es
     /\ nth_error es 0 = Some (W 0) /\ nth_error es 5 = Some PI
-    /\ (let s := fst (run step_loop (init Default 8 0 0 1 [1%nat]) (firstn 5 es)) in
+    /\ (let s := fst (run step_loop (init Default 8 0 0 1 [] [1%nat]) (firstn 5 es)) in
         pp s = PEnterT /\ aw s = true /\ owed s = true)
-    /\ (let s := fst (run step_loop (init Default 8 0 0 1 [1%nat]) es) in
+    /\ (let s := fst (run step_loop (init Default 8 0 0 1 [] [1%nat]) es) in
         pp s = PInKernel /\ polls s = 1%nat /\ aw s = false /\ pstate s = IS_POLLING
         /\ cq s = 0 /\ sqh s = sqt s /\ all_wakers_finished s
         /\ owed s = true /\ ev_ok s Stuck
@@ -150,15 +180,98 @@ Check (eq_refl : ev_ok = fun s e =>
   | W i => (i < length (wakers s))%nat
   | Stuck => pp s = PInKernel /\ cq s = 0 /\ sqh s = sqt s /\ all_wakers_finished s
   | PI => True
+  | Timeout => pp s = PInKernel /\ timed s = true
+               /\ cq s = 0 /\ sqh s = sqt s /\ all_wakers_finished s
   end).
-(* the events and the step function, pinned: [PI] is the interrupted enter *)
+(* the events and the step function, pinned: [PI] is the interrupted enter, [Timeout] the expired
+   finite timeout of a blocked poll *)
 Check (eq_refl : step = fun s e =>
   match e with
   | P => (pstep s, [])
   | W i => (wstep s i, [])
   | Stuck => (match pp s with PInKernel => pstuck s | _ => s end, [])
   | PI => (pintr s, [])
+  | Timeout => (match pp s with PInKernel => if timed s then ptimeout s else s | _ => s end, [])
   end).
+Check (eq_refl : timed = fun s => hd false (tmos s)).
+Check (eq_refl : ptimeout = fun s =>
+  {| md := md s; cap := cap s; sqo := sqo s; pstate := pstate s; sqh := sqh s; sqt := sqt s; cq := cq s; holder := holder s;
+     pp := (if psub s =? 0 then PClearPolling else PWbH); polls := polls s; aw := aw s; lh := lh s; seen := seen s;
+     wakers := wakers s; wlh := wlh s; psub := psub s; parked := parked s; owed := owed s; tmos := tmos s;
+     lost := lost s || owed s |}).
+(* an awoken poll uses a zero timeout whatever the caller passed; the seeded variant keeps [Some(t)] *)
+Check (eq_refl : enter_wait = fun s submitted =>
+  if 0 <? cq s then after_enter_ok s
+  else if aw s then (if 0 <? submitted then after_enter_ok s else set_p s PClearPolling)
+  else set_psub (set_p s PInKernel) submitted).
+Check (eq_refl : enter_wait_or = fun s submitted =>
+  if 0 <? cq s then after_enter_ok s
+  else if timed s then set_psub (set_p s PInKernel) submitted
+  else if aw s then (if 0 <? submitted then after_enter_ok s else set_p s PClearPolling)
+  else set_psub (set_p s PInKernel) submitted).
+Check (eq_refl : step_or = fun s e => match e with P => (pstep_or s, []) | _ => step s e end).
+Check (eq_refl : step_nsi = fun s e => match e with W i => (wstep_nsi s i, []) | _ => step s e end).
+Check (eq_refl : wstep_nsi = fun s i =>
+  match md s with
+  | SingleIssuer =>
+      match nth_error (wakers s) i with
+      | None => s
+      | Some w =>
+          match wp w with
+          | WEnterT => set_w s i (call_done w)
+          | _ => set_md (wstep (set_md s Default) i) SingleIssuer
+          end
+      end
+  | _ => wstep s i
+  end).
+Check (valid_or_nil : forall s, valid_or s []).
+Check (valid_or_cons : forall s e es, ev_ok s e -> valid_or (fst (step_or s e)) es -> valid_or s (e :: es)).
+Check (valid_nsi_nil : forall s, valid_nsi s []).
+Check (valid_nsi_cons : forall s e es, ev_ok s e -> valid_nsi (fst (step_nsi s e)) es -> valid_nsi s (e :: es)).
+Check (C11_expired_timeout_means_nothing_owed :
+  forall m c prefill nparked npolls tm wcalls es, valid (init m c prefill nparked npolls tm wcalls) es ->
+    let s := fst (run step (init m c prefill nparked npolls tm wcalls) es) in
+    ev_ok s Timeout \/ ev_ok s Stuck -> owed s = false).
+Check (C11_awoken_poll_does_not_wait :
+  forall s, (pp s = PEnterT \/ pp s = PEnterFlags) -> aw s = true ->
+    pp (pstep s) = PWbH \/ pp (pstep s) = PClearPolling).
+Check (C11_kept_timeout_loses_wakeup_refuted :
+  exists es,
+    valid_or (init Default 8 0 0 1 [true] [1%nat]) es
+    /\ nth_error es 0 = Some (W 0)
+    /\ (let s := fst (run step_or (init Default 8 0 0 1 [true] [1%nat]) (firstn 5 es)) in
+        pp s = PEnterT /\ aw s = true /\ timed s = true /\ owed s = true /\ pstate s = IS_POLLING)
+    /\ (let s := fst (run step_or (init Default 8 0 0 1 [true] [1%nat]) es) in
+        pp s = PInKernel /\ polls s = 1%nat /\ aw s = true /\ timed s = true /\ pstate s = IS_POLLING
+        /\ cq s = 0 /\ sqh s = sqt s /\ all_wakers_finished s
+        /\ owed s = true /\ ev_ok s Timeout
+        /\ lost (fst (step_or s Timeout)) = true)
+    /\ valid (init Default 8 0 0 1 [true] [1%nat]) es
+    /\ (let s := fst (run step (init Default 8 0 0 1 [true] [1%nat]) es) in
+        pp s = PClearPolling /\ owed s = true /\ lost s = false
+        /\ (let s' := fst (run step s [P; P; P; P; P; P]) in
+            pp s' = PIdle /\ polls s' = O /\ owed s' = false /\ lost s' = false))
+    /\ (let s := fst (run step_or (init Default 8 0 0 1 [false] [1%nat]) es) in
+        pp s = PClearPolling /\ lost s = false)).
+Check (C11_refused_enter_loses_wakeup_refuted :
+  exists es,
+    valid_nsi (init SingleIssuer 8 0 0 1 [] [1%nat]) es
+    /\ nth_error es 5 = Some (W 0)
+    /\ (let s := fst (run step_nsi (init SingleIssuer 8 0 0 1 [] [1%nat]) (firstn 5 es)) in
+        pp s = PInKernel /\ pstate s = IS_POLLING /\ cq s = 0 /\ owed s = false)
+    /\ (let s := fst (run step_nsi (init SingleIssuer 8 0 0 1 [] [1%nat]) (firstn 14 es)) in
+        sqt s = sqh s + 1
+        /\ nth_error (wakers s) 0 = Some {| wp := WEnterT; calls := 1; wok := true |})
+    /\ (let s := fst (run step_nsi (init SingleIssuer 8 0 0 1 [] [1%nat]) es) in
+        pp s = PInKernel /\ polls s = 1%nat /\ md s = SingleIssuer
+        /\ pstate s = N.lor IS_POLLING IS_AWOKEN
+        /\ cq s = 0 /\ sqt s = sqh s + 1 /\ sqo s = 0 /\ all_wakers_finished s
+        /\ owed s = true /\ ~ ev_ok s P
+        /\ lost (fst (step_nsi s Stuck)) = true)
+    /\ valid (init SingleIssuer 8 0 0 1 [] [1%nat]) es
+    /\ (let s := fst (run step (init SingleIssuer 8 0 0 1 [] [1%nat]) es) in
+        pp s = PInKernel /\ cq s = 1 /\ sqh s = sqt s /\ owed s = true /\ ev_ok s P
+        /\ all_wakers_finished s)).
 Check (eq_refl : pintr = fun s =>
   match pp s with
   | PEnterT => set_p (syscall_submit s (sqt s - lh s)) PClearPollingIntr
@@ -180,11 +293,11 @@ Check (eq_refl : ret_dist = fun p =>
   end).
 (* the parked futures: the initial state, [wake_blocked_futures] at the poller's two call sites
    and at the waker's, pinned *)
-Check (eq_refl : init = fun m c prefill nparked npolls wcalls =>
+Check (eq_refl : init = fun m c prefill nparked npolls tm wcalls =>
   {| md := m; cap := c; sqo := prefill; pstate := 0; sqh := 0; sqt := prefill; cq := 0; holder := None;
      pp := PIdle; polls := npolls; aw := false; lh := 0; seen := 0; psub := 0;
      wakers := map (fun c => {| wp := WIdle; calls := c; wok := false |}) wcalls;
-     wlh := map (fun _ => 0) wcalls; parked := nparked; owed := false; lost := false |}).
+     wlh := map (fun _ => 0) wcalls; parked := nparked; owed := false; tmos := tm; lost := false |}).
 Check (eq_refl : wbf_available = fun s loaded_head => cap s - (sqt s - loaded_head)).
 Check (eq_refl : wbf_rest = fun avail n => n - N.min avail n).
 Check (eq_refl : wbf_left = fun avail n => avail - N.min avail n).
@@ -203,19 +316,19 @@ Check (eq_refl : (fun s r l => pstep (set_p s (PEndWbLock r l))) = fun s r l =>
   poll_return (wbf_putback (set_p s (PEndWbLock r l)) r l)).
 Check (C11_has_waiting_bit_loses_wakeup_refuted :
   exists es,
-    valid_hw (init_hw Default 2 2 1 1 [1%nat]) es
+    valid_hw (init_hw Default 2 2 1 1 [] [1%nat]) es
     /\ nth_error es 5 = Some (W 0)
-    /\ (let s := fst (run step_hw (init_hw Default 2 2 1 1 [1%nat]) (firstn 5 es)) in
+    /\ (let s := fst (run step_hw (init_hw Default 2 2 1 1 [] [1%nat]) (firstn 5 es)) in
         pp s = PInKernel /\ pstate s = N.lor IS_POLLING HAS_WAITING /\ parked s = 1
         /\ cq s = 0 /\ sqh s = sqt s /\ owed s = false)
-    /\ (let s := fst (run step_hw (init_hw Default 2 2 1 1 [1%nat]) es) in
+    /\ (let s := fst (run step_hw (init_hw Default 2 2 1 1 [] [1%nat]) es) in
         pp s = PInKernel /\ polls s = 1%nat /\ aw s = false
         /\ pstate s = N.lor (N.lor IS_POLLING HAS_WAITING) IS_AWOKEN /\ parked s = 1
         /\ cq s = 0 /\ sqh s = sqt s /\ all_wakers_finished s
         /\ owed s = true /\ ev_ok s Stuck
         /\ lost (fst (step_hw s Stuck)) = true)
-    /\ valid (init Default 2 2 1 1 [1%nat]) es
-    /\ (let s := fst (run step (init Default 2 2 1 1 [1%nat]) es) in
+    /\ valid (init Default 2 2 1 1 [] [1%nat]) es
+    /\ (let s := fst (run step (init Default 2 2 1 1 [] [1%nat]) es) in
         pp s = PInKernel /\ pstate s = N.lor IS_POLLING IS_AWOKEN /\ owed s = true
         /\ nth_error (wakers s) 0 = Some {| wp := WAddH1; calls := 1; wok := false |})).
 Check (valid_hw_nil : forall s, valid_hw s []).
@@ -242,6 +355,8 @@ Check eintr_example_kthread.
 Check eintr_example_blocked.
 Check parked_example.
 Check has_waiting_nobody_parked.
+Check timeout_example.
+Check timed_wake_example.
 Print Assumptions C11_no_lost_ring_wakeup.
 Print Assumptions C11_wake_is_on_its_way.
 Print Assumptions C11_awoken_bit_makes_next_poll_prompt.
@@ -252,6 +367,12 @@ Print Assumptions C11_interrupted_enter_makes_poll_return.
 Print Assumptions C11_poll_return_clears_owed.
 Print Assumptions C11_eintr_retry_loses_wakeup_refuted.
 Print Assumptions C11_has_waiting_bit_loses_wakeup_refuted.
+Print Assumptions C11_expired_timeout_means_nothing_owed.
+Print Assumptions C11_awoken_poll_does_not_wait.
+Print Assumptions C11_kept_timeout_loses_wakeup_refuted.
+Print Assumptions C11_refused_enter_loses_wakeup_refuted.
+Print Assumptions timeout_example.
+Print Assumptions timed_wake_example.
 Print Assumptions parked_example.
 Print Assumptions has_waiting_nobody_parked.
 Print Assumptions eintr_example_default.
